@@ -1,5 +1,9 @@
 \* C17 quick: the 72 cells of the matrix + every interleaving of <= 2 connections, <= 2 reloads, <= 2 uses, with and without mutual TLS
 \* (duplex scripts) + the real-server scripts: <= 2 connections (trusted client certificate / none / other CA) x <= 2 reloads x <= 1 use
+\* + rotation of the client CA in place (mutual TLS; a connection presents no certificate or one of any generation of the CA),
+\*   duplex and real server: 2 connections x 1 rotation x 1 reload x <= 1 use
+\* + failed reloads (real server, without mutual TLS): 2 connections x 1 failed reload x 1 reload x <= 1 use
+\* + client side: 3 connections x 1 replacement of the roots file in place
 SPECIFICATION Spec
 CONSTANTS
   Mode = "swap"
@@ -11,5 +15,21 @@ CONSTANTS
   RMaxReload = 2
   RMaxUse = 1
   RealMtls = {FALSE, TRUE}
-INVARIANTS TypeOK Undisturbed Fresh ConfigKept Authenticated Emit
+  RotConn = 2
+  RotReload = 1
+  RotRotate = 1
+  RotUse = 1
+  RRotConn = 2
+  RRotReload = 1
+  RRotRotate = 1
+  RRotUse = 1
+  CliConn = 3
+  CliRotate = 1
+  FConn = 2
+  FReload = 1
+  FBotch = 1
+  FUse = 1
+  FailMtls = {FALSE}
+  Extra = {"rot", "rrot", "client", "rfail"}
+INVARIANTS TypeOK Undisturbed Fresh ConfigKept CAFollows JudgedAsConfigured Authenticated ClientFollowsRoots Emit
 CHECK_DEADLOCK FALSE
